@@ -180,6 +180,9 @@ def stream_gen(ctx, name):
     if name.startswith("scan:"):
         _, lang = name.split(":")
         return lambda o: streams.s_scan(lang, tier, seed, o)
+    if name.startswith("fmt:"):
+        lang = name.split(":")[1]
+        return lambda o: gen_apply.gen(lang, tier, seed, o, only_fmt=True)[0]
     if name.startswith("pfx:"):
         _, lang = name.split(":")
         return lambda o: s_prefix(ctx, lang, o)
@@ -280,7 +283,7 @@ PROPS = {
     "C03": dict(module="T2N.Props.C03", streams=["ds", "script", "tok", "val:en", "val:it"], oracles=["c03"]),
     "C04": dict(module="T2N.Props.C04", streams=_apply_all(), oracles=["c04"]),
     "C05": dict(module="T2N.Props.C05", streams=_apply_all() + ["script"], oracles=["c05"]),
-    "C06": dict(module="T2N.Props.C06", streams=["script"] + all_langs("scan"), oracles=["c06"]),
+    "C06": dict(module="T2N.Props.C06", streams=["script"] + all_langs("scan") + all_langs("fmt"), oracles=["c06"]),
     "C07": dict(module="T2N.Props.C07", streams=_apply_all() + ["ds", "script", "scan:en", "scan:nl"] + all_langs("pfx"), oracles=["c07"]),
     "C08": dict(module="T2N.Props.C08", streams=_apply_all(), oracles=["c08"]),
     "C09": dict(module="T2N.Props.C09", streams=["script", "scan:en", "scan:fr"], oracles=["c09"]),
